@@ -876,6 +876,16 @@ impl<'a> Gen<'a> {
                     }
                     70..=76 if !scalar => {
                         let u = unit_expr(l, t, self.rng);
+                        if self.rng.chance(1, 8) {
+                            // a conversion chain on the right: a ➞ (b ➞ c), b possibly a conditional
+                            let b = if self.rng.chance(1, 2) {
+                                G { ty: ty.clone(), n: N::If(Box::new(self.leaf(&Ty::Bool)), Box::new(unit_expr(l, t, self.rng)), Box::new(unit_expr(l, t, self.rng))) }
+                            } else {
+                                unit_expr(l, t, self.rng)
+                            };
+                            let inner = G::bin(ty.clone(), b, "->", u);
+                            return G::bin(ty.clone(), self.expr(ty, d), "->", inner);
+                        }
                         G::bin(ty.clone(), self.expr(ty, d), *self.rng.pick(&["->", "→", "to", "➞"]), u)
                     }
                     70..=73 if scalar => {
